@@ -343,8 +343,49 @@ def may_alias_terminal_writes(m, pa, c, recv):
         src = pa.iter_source(f, ("call", r[1], r[2], ())) if r[0] == "call" else None
         if src is not None and src[0][0] == "call" and re.search(r"Task::(siblings|children)$", src[0][1]):
             continue
+        if src is not None and src[0][0] == "local" and descendant_worklist(f, pa, src[0][1]):
+            continue  # a work-list seeded with children() and refilled with children() of its elements: descendants only
         out.append("%s of %s at %s" % (S, (root_str(src[0]) + "[..]") if src else root_str(r), w.loc))
     return out
+
+
+def descendant_worklist(f, pa, loc, depth=0):
+    """is every value ever stored in local `loc` a Vec of tasks obtained from Task::children (directly, or a Vec::new()
+    filled only with children() of tasks)?"""
+    if depth > 3:
+        return False
+    ds = [d for d in f.defs().get(loc, []) if d[2] in ("assign", "call")]
+    if not ds:
+        return False
+    for bi, si, kind, payload in ds:
+        if kind == "call":
+            q = Call(f, bi).q
+            if q.endswith("Task::children"):
+                continue
+            if re.search(r"Vec::<.*>::new$", q):
+                continue
+            return False
+        rv = payload
+        if rv[0] == "use" and rv[1][0] in ("m", "c") and not rv[1][1][1]:
+            if not descendant_worklist(f, pa, rv[1][1][0], depth + 1):
+                return False
+            continue
+        return False
+    # mutations through &mut loc
+    for c in f.calls():
+        if not re.search(r"Vec::<.*>::(extend_from_slice|push|append|insert)$|Extend<.*>>::extend$", c.q) or not c.args:
+            continue
+        r = pa.root(f, c.args[0])
+        if not (r[0] == "local" and r[1] == loc):
+            continue
+        a = pa.root(f, c.args[1])
+        n = 0
+        while a[0] == "call" and (Call(f, a[2]).callee.get("decl") or "") in ("std::ops::Deref::deref", "std::clone::Clone::clone") and n < 3:
+            a = pa.root(f, Call(f, a[2]).args[0])
+            n += 1
+        if not (a[0] == "call" and a[1].endswith("Task::children")):
+            return False
+    return True
 
 
 def is_dead(m, f, depth=0):
